@@ -131,7 +131,7 @@ ilu_dpivotL(
     pivmax = -1.0;
     pivptr = nsupc;
     diag = SLU_EMPTY;
-    old_pivptr = nsupc;
+    old_pivptr = SLU_EMPTY;
     ptr0 = SLU_EMPTY;
     for (isub = nsupc; isub < nsupr; ++isub) {
         if (marker[lsub_ptr[isub]] > jcol)
@@ -156,6 +156,10 @@ ilu_dpivotL(
 	if (lsub_ptr[isub] == diagind) diag = isub;
 	if (ptr0 == SLU_EMPTY) ptr0 = isub;
     }
+
+    /* The remembered pivot row is not among the candidates (it was dropped
+       from L, or belongs to a later relaxed supernode): it cannot be reused. */
+    if ( *usepr && old_pivptr == SLU_EMPTY ) *usepr = 0;
 
     if (milu == SMILU_2 || milu == SMILU_3) pivmax += drop_sum;
 
